@@ -93,7 +93,18 @@ def regOf (j : Json) : Except String Registry := do
   let resources ← (← getArr j "resources").toList.mapM (fun r => do
     pure (⟨← getText r "name", ← getText r "uri", ← getText r "desc", ← getText r "mime", ← getNat r "size",
       ← resRun (← r.getObjVal? "run")⟩ : ResEntry))
-  pure ⟨← getText j "name", ← getText j "version", tools, prompts, resources⟩
+  -- list filters: the names / uris the filter lets through for this request (absent: no filter installed)
+  let shown (key : String) : Except String (Option (List Text)) :=
+    match j.getObjVal? key with
+    | .ok (.arr a) => do pure (some (← a.toList.mapM textOfJson))
+    | _ => pure none
+  let tf ← shown "listTools"
+  let pf ← shown "listPrompts"
+  let rf ← shown "listResources"
+  pure { name := ← getText j "name", version := ← getText j "version", tools := tools, prompts := prompts, resources := resources,
+         toolFilter := match tf with | none => id | some ns => fun ds => ds.filter (fun d => ns.contains d.name),
+         promptFilter := match pf with | none => id | some ns => fun ps => ps.filter (fun p => ns.contains p.name),
+         resourceFilter := match rf with | none => id | some us => fun rs => rs.filter (fun r => us.contains r.uri) }
 
 /-! ## reactions -/
 
@@ -131,9 +142,15 @@ def handle (op : String) (j : Json) : Except String Json := do
       pure ((← (p.getD 0 .null).getNat?), (← (p.getD 1 .null).getBool?)))
     let st : Mcp.Session.St := { issued := ← getNat sj "issued", live := live, lstate := ls, streams := [] }
     let ij ← j.getObjVal? "in"
-    let inp : HttpIn := ⟨← verbOf (← getStr ij "verb"), ← getBool ij "pathOk", ← refOf (← ij.getObjVal? "ref"), ← getBool ij "accept",
+    -- the Accept header as sent: the model parses it (`serveWire`)
+    let inp : HttpWire := ⟨← verbOf (← getStr ij "verb"), ← getBool ij "pathOk", ← refOf (← ij.getObjVal? "ref"), ← getText ij "accept",
       ← bodyOf (← ij.getObjVal? "body")⟩
-    pure (reactionJson (serveStreamable cfg (← regOf (← j.getObjVal? "reg")) st inp).2)
+    pure (reactionJson (serveWire cfg (← regOf (← j.getObjVal? "reg")) st inp).2)
+  | "accept" =>
+    -- the framing of the answer to a request (a POST whose body has a non-null id)
+    match chooseSSE (← getBool j "postSSE") (← getText j "hdr") with
+    | .ok b => pure (Json.mkObj [("sse", .bool b), ("panic", .bool false)])
+    | .panic => pure (Json.mkObj [("sse", .null), ("panic", .bool true)])
   | "sse" =>
     let ij ← j.getObjVal? "in"
     let path ← match ← getStr ij "path" with
